@@ -113,3 +113,715 @@ theorem removeFirst_nodup {α} [BEq α] [LawfulBEq α] (l : List α) (x : α) (h
         · exact List.mem_cons_of_mem _ (i3 y hy hyx)
 
 end AkVerif.StickyAlg
+
+namespace AkVerif.StickyAlg
+open AkVerif.Assign
+
+/-- the consumers' lists (current assignment plus the ones set aside as fixed) and the owner map
+    describe the same function -/
+structure Own (s : St) (fx : List (Member × List TP)) : Prop where
+  K : (keysOf (s.cur ++ fx)).Nodup
+  N : ∀ cp ∈ s.cur ++ fx, cp.2.Nodup
+  HO : ∀ cp ∈ s.cur ++ fx, ∀ p ∈ cp.2, alGet s.owner p = some cp.1
+  OH : ∀ p c, alGet s.owner p = some c → ∃ ps, (c, ps) ∈ s.cur ++ fx ∧ p ∈ ps
+  S : ∀ c ∈ s.subs, c ∈ keysOf s.cur
+  SN : s.subs.Nodup
+
+theorem keysOf_append {α β : Type} (a b : List (α × β)) : keysOf (a ++ b) = keysOf a ++ keysOf b := by
+  unfold keysOf; simp
+
+theorem curOf_entry (s : St) (c : Member) (hc : c ∈ keysOf s.cur) : (c, curOf s c) ∈ s.cur := by
+  have := (alHas_iff_mem_keys s.cur c).mpr hc
+  obtain ⟨v, hv⟩ := (alHas_iff s.cur c).mp this
+  have hm := alGet_mem _ _ _ hv
+  unfold curOf alGetD
+  rw [hv]; exact hm
+
+theorem entry_curOf (s : St) (fx : List (Member × List TP)) (h : Own s fx) (c : Member) (ps : List TP)
+    (hm : (c, ps) ∈ s.cur) : ps = curOf s c := by
+  have hk : (keysOf s.cur).Nodup := by
+    have := h.K; rw [keysOf_append] at this; exact (List.nodup_append.mp this).1
+  have := alGet_of_mem_nodup s.cur c ps hk hm
+  unfold curOf alGetD; rw [this]; rfl
+
+/-- insertion sort by any comparison keeps the elements -/
+theorem mem_insertBy {α} (lt : α → α → Bool) (a x : α) (l : List α) : x ∈ insertBy lt a l ↔ x = a ∨ x ∈ l := by
+  induction l with
+  | nil => simp [insertBy]
+  | cons y ys ih =>
+    unfold insertBy
+    split
+    · simp
+    · simp only [List.mem_cons, ih]
+      constructor
+      · rintro (h | h | h) <;> simp [h]
+      · rintro (h | h | h) <;> simp [h]
+
+theorem mem_sortBy {α} (lt : α → α → Bool) (x : α) (l : List α) : x ∈ sortBy lt l ↔ x ∈ l := by
+  induction l with
+  | nil => simp [sortBy]
+  | cons y ys ih =>
+    show x ∈ insertBy lt y (sortBy lt ys) ↔ _
+    rw [mem_insertBy, ih]; simp
+
+theorem own_setSubsFlags (s s' : St) (fx) (h : Own s fx) (hc : s'.cur = s.cur) (ho : s'.owner = s.owner)
+    (hs : s'.subs = s.subs) : Own s' fx := by
+  refine ⟨?_, ?_, ?_, ?_, ?_, ?_⟩
+  · rw [hc]; exact h.K
+  · rw [hc]; exact h.N
+  · rw [hc, ho]; exact h.HO
+  · rw [hc, ho]; exact h.OH
+  · rw [hc, hs]; exact h.S
+  · rw [hs]; exact h.SN
+
+/-- `_assign_partition` for a partition that nobody owns yet -/
+theorem assignPartition_own (s : St) (fx) (h : Own s fx) (p : TP) (hun : alGet s.owner p = none) :
+    Own (assignPartition s p) fx := by
+  unfold assignPartition
+  split
+  · exact h
+  · rename_i c hc
+    have hcsub : c ∈ s.subs := (mem_sortBy _ _ _).mp (List.mem_of_find?_eq_some hc)
+    have hckey : c ∈ keysOf s.cur := h.S c hcsub
+    have hhas : alHas s.cur c = true := (alHas_iff_mem_keys _ _).mpr hckey
+    have hentry : (c, curOf s c) ∈ s.cur := curOf_entry s c hckey
+    have hpnot : ∀ cp ∈ s.cur ++ fx, p ∉ cp.2 := by
+      intro cp hcp hp
+      have := h.HO cp hcp p hp
+      rw [hun] at this; cases this
+    have memNew : ∀ cp, cp ∈ alSet s.cur c (curOf s c ++ [p]) ++ fx →
+        cp = (c, curOf s c ++ [p]) ∨ (cp ∈ s.cur ++ fx ∧ cp.1 ≠ c) := by
+      intro cp hcp
+      rcases List.mem_append.mp hcp with hcp | hcp
+      · rcases mem_alSet _ _ _ _ hcp with h1 | ⟨h1, h2⟩
+        · exact Or.inl h1
+        · exact Or.inr ⟨List.mem_append_left _ h1, by simpa using h2⟩
+      · right
+        refine ⟨List.mem_append_right _ hcp, ?_⟩
+        intro heq
+        have hk := h.K
+        rw [keysOf_append] at hk
+        have := (List.nodup_append.mp hk).2.2 cp.1 (by rw [heq]; exact hckey) cp.1
+          (List.mem_map.mpr ⟨cp, hcp, rfl⟩)
+        exact this rfl
+    refine ⟨?_, ?_, ?_, ?_, ?_, ?_⟩
+    · show (keysOf (alSet s.cur c (curOf s c ++ [p]) ++ fx)).Nodup
+      rw [keysOf_append, keys_alSet_has _ _ _ hhas, ← keysOf_append]; exact h.K
+    · intro cp hcp
+      rcases memNew cp hcp with heq | ⟨hin, _⟩
+      · subst heq
+        simp only
+        rw [List.nodup_append]
+        refine ⟨h.N _ (List.mem_append_left _ hentry), by simp, ?_⟩
+        intro a ha b hb
+        simp at hb; subst hb
+        intro heq; subst heq
+        exact hpnot _ (List.mem_append_left _ hentry) ha
+      · exact h.N cp hin
+    · intro cp hcp q hq
+      show alGet (alSet s.owner p c) q = some cp.1
+      rcases memNew cp hcp with heq | ⟨hin, _⟩
+      · subst heq
+        simp only at hq ⊢
+        rcases List.mem_append.mp hq with hq | hq
+        · have hne : (p == q) = false := by
+            apply Bool.eq_false_iff.mpr; intro he
+            have : p = q := by simpa using he
+            subst this
+            exact hpnot _ (List.mem_append_left _ hentry) hq
+          rw [alGet_alSet_other _ _ _ _ hne]
+          exact h.HO _ (List.mem_append_left _ hentry) q hq
+        · simp at hq; subst hq; exact alGet_alSet_same _ _ _
+      · have hne : (p == q) = false := by
+          apply Bool.eq_false_iff.mpr; intro he
+          have : p = q := by simpa using he
+          subst this
+          exact hpnot cp hin hq
+        rw [alGet_alSet_other _ _ _ _ hne]
+        exact h.HO cp hin q hq
+    · intro q c' hq
+      have hq' : alGet (alSet s.owner p c) q = some c' := hq
+      by_cases he : (p == q) = true
+      · have : p = q := by simpa using he
+        subst this
+        rw [alGet_alSet_same] at hq'
+        injection hq' with hq'; subst hq'
+        exact ⟨curOf s c ++ [p], List.mem_append_left _ (mem_alSet_self _ _ _), by simp⟩
+      · have hne : (p == q) = false := by simpa using he
+        rw [alGet_alSet_other _ _ _ _ hne] at hq'
+        obtain ⟨ps, hps, hqps⟩ := h.OH q c' hq'
+        by_cases hcc : c' = c
+        · subst hcc
+          have : ps = curOf s c' := by
+            have hk := h.K
+            exact nodup_unique_val (s.cur ++ fx) hk c' ps (curOf s c') hps (List.mem_append_left _ hentry)
+          subst this
+          exact ⟨curOf s c' ++ [p], List.mem_append_left _ (mem_alSet_self _ _ _), List.mem_append_left _ hqps⟩
+        · refine ⟨ps, ?_, hqps⟩
+          rcases List.mem_append.mp hps with hps | hps
+          · exact List.mem_append_left _ (mem_alSet_of_ne _ _ _ _ hps (by simpa using hcc))
+          · exact List.mem_append_right _ hps
+    · intro c' hc'
+      show c' ∈ keysOf (alSet s.cur c (curOf s c ++ [p]))
+      rw [keys_alSet_has _ _ _ hhas]; exact h.S c' hc'
+    · exact h.SN
+
+end AkVerif.StickyAlg
+
+namespace AkVerif.StickyAlg
+open AkVerif.Assign
+
+theorem addMovement_fields (s : St) (p : TP) (pair : Member × Member) :
+    (addMovement s p pair).cur = s.cur ∧ (addMovement s p pair).owner = s.owner ∧
+    (addMovement s p pair).subs = s.subs := ⟨rfl, rfl, rfl⟩
+
+theorem removeMovement_fields (s : St) (p : TP) :
+    (removeMovement s p).1.cur = s.cur ∧ (removeMovement s p).1.owner = s.owner ∧
+    (removeMovement s p).1.subs = s.subs := by
+  unfold removeMovement; split <;> exact ⟨rfl, rfl, rfl⟩
+
+theorem movePartitionRecord_fields (s : St) (p : TP) (old new : Member) :
+    (movePartitionRecord s p old new).cur = s.cur ∧ (movePartitionRecord s p old new).owner = s.owner ∧
+    (movePartitionRecord s p old new).subs = s.subs := by
+  unfold movePartitionRecord
+  split
+  · have hf := removeMovement_fields s p
+    cases hr : removeMovement s p with
+    | mk s1 o =>
+      rw [hr] at hf
+      cases o with
+      | none => exact hf
+      | some existing =>
+        simp only
+        split
+        · split <;> exact hf
+        · split <;> exact hf
+  · exact addMovement_fields s p (old, new)
+
+/-- the cur/owner update of `_move_partition` -/
+theorem moveCore_own (s : St) (fx) (h : Own s fx) (q : TP) (old new : Member)
+    (hown : alGet s.owner q = some old) (hold : old ∈ keysOf s.cur) (hnew : new ∈ keysOf s.cur) :
+    Own { s with
+          cur := alSet (alSet s.cur old (removeFirst (curOf s old) q)) new
+                   (alGetD (alSet s.cur old (removeFirst (curOf s old) q)) new [] ++ [q]),
+          owner := alSet s.owner q new } fx := by
+  have hkc : (keysOf s.cur).Nodup := by
+    have := h.K; rw [keysOf_append] at this; exact (List.nodup_append.mp this).1
+  have hhasOld : alHas s.cur old = true := (alHas_iff_mem_keys _ _).mpr hold
+  have hentryOld : (old, curOf s old) ∈ s.cur := curOf_entry s old hold
+  have hentryNew : (new, curOf s new) ∈ s.cur := curOf_entry s new hnew
+  have hLnd : (curOf s old).Nodup := h.N _ (List.mem_append_left _ hentryOld)
+  obtain ⟨hL'nd, hqL', hL'keep⟩ := removeFirst_nodup (curOf s old) q hLnd
+  -- q sits in old's list and nowhere else
+  have hq_old : q ∈ curOf s old := by
+    obtain ⟨ps, hps, hqps⟩ := h.OH q old hown
+    have := nodup_unique_val (s.cur ++ fx) h.K old ps (curOf s old) hps (List.mem_append_left _ hentryOld)
+    rw [← this]; exact hqps
+  have hq_only : ∀ cp ∈ s.cur ++ fx, q ∈ cp.2 → cp.1 = old := by
+    intro cp hcp hq
+    have := h.HO cp hcp q hq
+    rw [hown] at this; injection this with this; exact this.symm
+  generalize hcur1 : alSet s.cur old (removeFirst (curOf s old) q) = cur1
+  have hk1 : keysOf cur1 = keysOf s.cur := by rw [← hcur1]; exact keys_alSet_has _ _ _ hhasOld
+  have hhasNew1 : alHas cur1 new = true := (alHas_iff_mem_keys _ _).mpr (by rw [hk1]; exact hnew)
+  -- the list `new` has after step 1
+  have hX : alGetD cur1 new [] = if old = new then removeFirst (curOf s old) q else curOf s new := by
+    rw [alGetD_def, ← hcur1]
+    split
+    · rename_i he; subst he; rw [alGet_alSet_same]; rfl
+    · rename_i he
+      rw [alGet_alSet_other _ _ _ _ (by simpa using he)]
+      rfl
+  generalize hXdef : (if old = new then removeFirst (curOf s old) q else curOf s new) = X at hX
+  have hXnd : X.Nodup ∧ q ∉ X ∧ (∀ x ∈ X, alGet s.owner x = some new ∨ (old = new ∧ x ∈ curOf s old)) := by
+    rw [← hXdef]
+    split
+    · rename_i he
+      exact ⟨hL'nd, hqL', fun x hx => Or.inr ⟨he, mem_removeFirst _ _ _ hx⟩⟩
+    · rename_i he
+      refine ⟨h.N _ (List.mem_append_left _ hentryNew), ?_, fun x hx => Or.inl (h.HO _ (List.mem_append_left _ hentryNew) x hx)⟩
+      intro hq
+      exact he (hq_only _ (List.mem_append_left _ hentryNew) hq).symm
+  rw [hX]
+  -- membership in the new table
+  have memNew : ∀ cp, cp ∈ alSet cur1 new (X ++ [q]) ++ fx →
+      cp = (new, X ++ [q]) ∨ (cp = (old, removeFirst (curOf s old) q) ∧ old ≠ new) ∨
+      (cp ∈ s.cur ++ fx ∧ cp.1 ≠ old ∧ cp.1 ≠ new) := by
+    intro cp hcp
+    rcases List.mem_append.mp hcp with hcp | hcp
+    · rcases mem_alSet _ _ _ _ hcp with h1 | ⟨h1, h2⟩
+      · exact Or.inl h1
+      · have hne : cp.1 ≠ new := by simpa using h2
+        rw [← hcur1] at h1
+        rcases mem_alSet _ _ _ _ h1 with h3 | ⟨h3, h4⟩
+        · right; left; refine ⟨h3, ?_⟩; intro he; apply hne; rw [h3]; exact he
+        · right; right; exact ⟨List.mem_append_left _ h3, by simpa using h4, hne⟩
+    · right; right
+      have hk := h.K
+      rw [keysOf_append] at hk
+      have hdisj := (List.nodup_append.mp hk).2.2
+      refine ⟨List.mem_append_right _ hcp, ?_, ?_⟩
+      · intro he; exact hdisj cp.1 (by rw [he]; exact hold) cp.1 (List.mem_map.mpr ⟨cp, hcp, rfl⟩) rfl
+      · intro he; exact hdisj cp.1 (by rw [he]; exact hnew) cp.1 (List.mem_map.mpr ⟨cp, hcp, rfl⟩) rfl
+  have newEntry : (new, X ++ [q]) ∈ alSet cur1 new (X ++ [q]) ++ fx :=
+    List.mem_append_left _ (mem_alSet_self _ _ _)
+  have oldEntry : old ≠ new → (old, removeFirst (curOf s old) q) ∈ alSet cur1 new (X ++ [q]) ++ fx := by
+    intro hne
+    apply List.mem_append_left
+    apply mem_alSet_of_ne
+    · rw [← hcur1]; exact mem_alSet_self _ _ _
+    · simpa using hne
+  have otherEntry : ∀ cp ∈ s.cur ++ fx, cp.1 ≠ old → cp.1 ≠ new → cp ∈ alSet cur1 new (X ++ [q]) ++ fx := by
+    intro cp hcp h1 h2
+    rcases List.mem_append.mp hcp with hcp | hcp
+    · apply List.mem_append_left
+      apply mem_alSet_of_ne _ _ _ _ _ (by simpa using h2)
+      rw [← hcur1]
+      exact mem_alSet_of_ne _ _ _ _ hcp (by simpa using h1)
+    · exact List.mem_append_right _ hcp
+  refine ⟨?_, ?_, ?_, ?_, ?_, ?_⟩
+  · show (keysOf (alSet cur1 new (X ++ [q]) ++ fx)).Nodup
+    rw [keysOf_append, keys_alSet_has _ _ _ hhasNew1, hk1, ← keysOf_append]; exact h.K
+  · intro cp hcp
+    rcases memNew cp hcp with heq | ⟨heq, _⟩ | ⟨hin, _, _⟩
+    · subst heq
+      simp only
+      rw [List.nodup_append]
+      refine ⟨hXnd.1, by simp, ?_⟩
+      intro a ha b hb
+      simp at hb; subst hb
+      intro heq; subst heq; exact hXnd.2.1 ha
+    · subst heq; exact hL'nd
+    · exact h.N cp hin
+  · intro cp hcp x hx
+    show alGet (alSet s.owner q new) x = some cp.1
+    rcases memNew cp hcp with heq | ⟨heq, hne⟩ | ⟨hin, h1, h2⟩
+    · subst heq
+      simp only at hx ⊢
+      rcases List.mem_append.mp hx with hx | hx
+      · have hxq : (q == x) = false := by
+          apply Bool.eq_false_iff.mpr; intro he
+          have : q = x := by simpa using he
+          subst this; exact hXnd.2.1 hx
+        rw [alGet_alSet_other _ _ _ _ hxq]
+        rcases hXnd.2.2 x hx with h1 | ⟨h1, h2⟩
+        · exact h1
+        · subst h1; exact h.HO _ (List.mem_append_left _ hentryOld) x h2
+      · simp at hx; subst hx; exact alGet_alSet_same _ _ _
+    · subst heq
+      simp only at hx ⊢
+      have hxq : (q == x) = false := by
+        apply Bool.eq_false_iff.mpr; intro he
+        have : q = x := by simpa using he
+        subst this; exact hqL' hx
+      rw [alGet_alSet_other _ _ _ _ hxq]
+      exact h.HO _ (List.mem_append_left _ hentryOld) x (mem_removeFirst _ _ _ hx)
+    · have hxq : (q == x) = false := by
+        apply Bool.eq_false_iff.mpr; intro he
+        have : q = x := by simpa using he
+        subst this; exact h1 (hq_only cp hin hx)
+      rw [alGet_alSet_other _ _ _ _ hxq]
+      exact h.HO cp hin x hx
+  · intro x c' hx
+    have hx' : alGet (alSet s.owner q new) x = some c' := hx
+    by_cases he : (q == x) = true
+    · have : q = x := by simpa using he
+      subst this
+      rw [alGet_alSet_same] at hx'
+      injection hx' with hx'; subst hx'
+      exact ⟨X ++ [q], newEntry, by simp⟩
+    · have hne : (q == x) = false := by simpa using he
+      have hxq : x ≠ q := by intro e; subst e; simp at hne
+      rw [alGet_alSet_other _ _ _ _ hne] at hx'
+      obtain ⟨ps, hps, hxps⟩ := h.OH x c' hx'
+      by_cases hcn : c' = new
+      · subst hcn
+        refine ⟨X ++ [q], newEntry, List.mem_append_left _ ?_⟩
+        rw [← hXdef]
+        split
+        · rename_i heq
+          subst heq
+          have : ps = curOf s old := nodup_unique_val (s.cur ++ fx) h.K old ps _ hps (List.mem_append_left _ hentryOld)
+          subst this
+          exact hL'keep x hxps hxq
+        · have : ps = curOf s c' := nodup_unique_val (s.cur ++ fx) h.K c' ps _ hps (List.mem_append_left _ hentryNew)
+          subst this; exact hxps
+      · by_cases hco : c' = old
+        · subst hco
+          have : ps = curOf s c' := nodup_unique_val (s.cur ++ fx) h.K c' ps _ hps (List.mem_append_left _ hentryOld)
+          subst this
+          exact ⟨removeFirst (curOf s c') q, oldEntry hcn, hL'keep x hxps hxq⟩
+        · exact ⟨ps, otherEntry _ hps hco hcn, hxps⟩
+  · intro c' hc'
+    show c' ∈ keysOf (alSet cur1 new (X ++ [q]))
+    rw [keys_alSet_has _ _ _ hhasNew1, hk1]; exact h.S c' hc'
+  · exact h.SN
+
+end AkVerif.StickyAlg
+
+namespace AkVerif.StickyAlg
+open AkVerif.Assign
+
+theorem own_sameCore (s s' : St) (fx) (h : Own s fx) (hc : SameCore s s') : Own s' fx :=
+  own_setSubsFlags s s' fx h hc.1 hc.2.1 hc.2.2.2.2.2.1
+
+/-- "`s'` still owns everything `s` owned, and has the same `subs`" -/
+def Keeps (s s' : St) : Prop :=
+  s'.subs = s.subs ∧ ∀ p, (alGet s.owner p).isSome → (alGet s'.owner p).isSome
+
+theorem Keeps.refl (s : St) : Keeps s s := ⟨rfl, fun _ h => h⟩
+theorem Keeps.trans {a b c : St} (h1 : Keeps a b) (h2 : Keeps b c) : Keeps a c :=
+  ⟨by rw [h2.1, h1.1], fun p hp => h2.2 p (h1.2 p hp)⟩
+
+theorem movePartition_own (s : St) (fx) (h : Own s fx) (q : TP) (new : Member) :
+    Own (movePartition s q new) fx ∧ Keeps s (movePartition s q new) := by
+  unfold movePartition
+  split
+  · exact ⟨own_setSubsFlags s _ fx h rfl rfl rfl, ⟨rfl, fun _ hp => hp⟩⟩
+  · rename_i old hold
+    split
+    · exact ⟨own_setSubsFlags s _ fx h rfl rfl rfl, ⟨rfl, fun _ hp => hp⟩⟩
+    · rename_i hsubs
+      have hso : old ∈ s.subs ∧ new ∈ s.subs := by
+        simp only [Bool.or_eq_true, Bool.not_eq_true', not_or, Bool.not_eq_false] at hsubs
+        exact ⟨by simpa using hsubs.1, by simpa using hsubs.2⟩
+      have hf := movePartitionRecord_fields s q old new
+      generalize movePartitionRecord s q old new = s1 at hf
+      have h1 : Own s1 fx := own_setSubsFlags s s1 fx h hf.1 hf.2.1 hf.2.2
+      have hown1 : alGet s1.owner q = some old := by rw [hf.2.1]; exact hold
+      have hk1 : old ∈ keysOf s1.cur ∧ new ∈ keysOf s1.cur := by
+        rw [hf.1]; exact ⟨h.S old hso.1, h.S new hso.2⟩
+      have := moveCore_own s1 fx h1 q old new hown1 hk1.1 hk1.2
+      refine ⟨this, ⟨hf.2.2, ?_⟩⟩
+      intro p hp
+      show (alGet (alSet s1.owner q new) p).isSome
+      by_cases he : (q == p) = true
+      · have : q = p := by simpa using he
+        subst this; rw [alGet_alSet_same]; rfl
+      · rw [alGet_alSet_other _ _ _ _ (by simpa using he), hf.2.1]; exact hp
+
+theorem reassignPartition_own (s : St) (fx) (h : Own s fx) (hp : Pot s) (p : TP) :
+    Own (reassignPartition s p) fx ∧ Keeps s (reassignPartition s p) := by
+  unfold reassignPartition
+  split
+  · exact ⟨own_setSubsFlags s _ fx h rfl rfl rfl, ⟨rfl, fun _ hq => hq⟩⟩
+  · rename_i new hnew
+    have hpnew : p ∈ potOf s new := by
+      have := List.find?_some hnew; simpa using this
+    split
+    · exact ⟨own_setSubsFlags s _ fx h rfl rfl rfl, ⟨rfl, fun _ hq => hq⟩⟩
+    · rename_i consumer _
+      have hspec := partitionToBeMoved_spec s hp p consumer new hpnew
+      cases hr : partitionToBeMoved s p consumer new with
+      | mk s1 q =>
+        rw [hr] at hspec
+        simp only
+        have h1 : Own s1 fx := own_sameCore s s1 fx h hspec.1
+        have hk : Keeps s s1 := ⟨hspec.1.2.2.2.2.2.1, fun x hx => by rw [hspec.1.2.1]; exact hx⟩
+        have hm := movePartition_own s1 fx h1 q new
+        exact ⟨hm.1, hk.trans hm.2⟩
+
+theorem reassignPass_own (ps : List TP) : ∀ (s : St) (m : Bool) (fx), Own s fx → Pot s →
+    Own (reassignPass s ps m).1 fx ∧ Keeps s (reassignPass s ps m).1 := by
+  induction ps with
+  | nil => intro s m fx h _; exact ⟨h, Keeps.refl s⟩
+  | cons p rest ih =>
+    intro s m fx h hp
+    unfold reassignPass
+    split
+    · exact ⟨h, Keeps.refl s⟩
+    · split
+      · exact ⟨h, Keeps.refl s⟩
+      · split
+        · exact ih s m fx h hp
+        · split
+          · have h1 := reassignPartition_own s fx h hp p
+            have hp1 := reassignPartition_pot s hp p
+            have := ih (reassignPartition s p) true fx h1.1 hp1
+            exact ⟨this.1, h1.2.trans this.2⟩
+          · exact ih s m fx h hp
+
+theorem performReassignments_own (fuel : Nat) : ∀ (s : St) (ps : List TP) (b : Bool) (r : St × Bool) (fx),
+    Own s fx → Pot s → performReassignments fuel s ps b = some r → Own r.1 fx ∧ Keeps s r.1 := by
+  induction fuel with
+  | zero => intro s ps b r fx _ _ h; simp [performReassignments] at h
+  | succ n ih =>
+    intro s ps b r fx ho hp h
+    unfold performReassignments at h
+    have hpass := reassignPass_own ps s false fx ho hp
+    have hpot := reassignPass_pot ps s false hp
+    cases hr : reassignPass s ps false with
+    | mk s' modified =>
+      rw [hr] at hpass hpot h
+      simp only at h hpass hpot
+      split at h
+      · injection h with h; subst h; exact hpass
+      · split at h
+        · have := ih s' ps true r fx hpass.1 hpot.1 h
+          exact ⟨this.1, hpass.2.trans this.2⟩
+        · injection h with h; subst h; exact hpass
+
+theorem reassignBoth_own (fuel : Nat) (s : St) (r : St × Bool) (fx) (ho : Own s fx) (hp : Pot s)
+    (hr : reassignBoth fuel s = some r) : Own r.1 fx ∧ Keeps s r.1 := by
+  unfold reassignBoth at hr
+  have r1ok : ∀ r1, (if !s.revocation then performReassignments fuel s s.unassigned false else some (s, false)) = some r1 →
+      (Own r1.1 fx ∧ Keeps s r1.1) ∧ Pot r1.1 := by
+    intro r1 h1
+    split at h1
+    · exact ⟨performReassignments_own fuel s _ false r1 fx ho hp h1, (performReassignments_pot fuel s _ false r1 hp h1).1⟩
+    · injection h1 with h1; subst h1; exact ⟨⟨ho, Keeps.refl s⟩, hp⟩
+  cases h1 : (if !s.revocation then performReassignments fuel s s.unassigned false else some (s, false)) with
+  | none => rw [h1] at hr; cases hr
+  | some r1 =>
+    rw [h1] at hr
+    obtain ⟨s1, b1⟩ := r1
+    have hs1 := r1ok (s1, b1) h1
+    simp only at hr hs1
+    split at hr
+    · injection hr with hr; subst hr; exact hs1.1
+    · have := performReassignments_own fuel s1 _ false r fx hs1.1.1 hs1.2 hr
+      exact ⟨this.1, hs1.1.2.trans this.2⟩
+
+end AkVerif.StickyAlg
+
+namespace AkVerif.StickyAlg
+open AkVerif.Assign
+
+theorem assignPartition_fields (s : St) (p : TP) :
+    (assignPartition s p).subs = s.subs ∧ (assignPartition s p).c2p = s.c2p ∧
+    (assignPartition s p).p2c = s.p2c ∧
+    (∀ q, (q == p) = false → alGet (assignPartition s p).owner q = alGet s.owner q) := by
+  unfold assignPartition
+  split
+  · exact ⟨rfl, rfl, rfl, fun _ _ => rfl⟩
+  · refine ⟨rfl, rfl, rfl, ?_⟩
+    intro q hq
+    show alGet (alSet s.owner p _) q = _
+    rw [alGet_alSet_other]
+    cases h : (p == q) with
+    | false => rfl
+    | true =>
+      have : p = q := by simpa using h
+      subst this; simp at hq
+
+/-- a partition some subscribed, still-listed consumer could take gets an owner -/
+theorem assignPartition_owned (s : St) (p : TP)
+    (hex : ∃ c ∈ s.subs, (potOf s c).contains p = true) :
+    (alGet (assignPartition s p).owner p).isSome := by
+  unfold assignPartition
+  obtain ⟨c, hc, hpc⟩ := hex
+  cases hf : (sortedSubs s).find? (fun c => (potOf s c).contains p) with
+  | none =>
+    exfalso
+    have := List.find?_eq_none.mp hf c ((mem_sortBy _ _ _).mpr hc)
+    simp at this
+    exact this (by simpa using hpc)
+  | some c' =>
+    simp only
+    rw [alGet_alSet_same]; rfl
+
+theorem assignFold_own (l : List TP) : ∀ (s : St) (fx), Own s fx → l.Nodup →
+    (∀ p ∈ l, alGet s.owner p = none) →
+    let r := l.foldl (fun s p => if (consumersOf s p).isEmpty then s else assignPartition s p) s
+    Own r fx ∧ Keeps s r ∧ r.c2p = s.c2p ∧ r.p2c = s.p2c ∧
+    (∀ p ∈ l, (consumersOf s p).isEmpty = false →
+      (∃ c ∈ s.subs, (potOf s c).contains p = true) → (alGet r.owner p).isSome) := by
+  induction l with
+  | nil => intro s fx h _ _; exact ⟨h, Keeps.refl s, rfl, rfl, fun p hp => by cases hp⟩
+  | cons p rest ih =>
+    intro s fx h hnd hun
+    rw [List.nodup_cons] at hnd
+    simp only [List.foldl_cons]
+    by_cases hemp : (consumersOf s p).isEmpty = true
+    · simp only [hemp, if_true]
+      have := ih s fx h hnd.2 (fun q hq => hun q (List.mem_cons_of_mem _ hq))
+      simp only at this
+      refine ⟨this.1, this.2.1, this.2.2.1, this.2.2.2.1, ?_⟩
+      intro q hq hne hex
+      rcases List.mem_cons.mp hq with rfl | hq
+      · rw [hemp] at hne; cases hne
+      · exact this.2.2.2.2 q hq hne hex
+    · have hemp' : (consumersOf s p).isEmpty = false := by simpa using hemp
+      simp only [hemp', Bool.false_eq_true, if_false]
+      have hf := assignPartition_fields s p
+      have h1 := assignPartition_own s fx h p (hun p List.mem_cons_self)
+      have hun1 : ∀ q ∈ rest, alGet (assignPartition s p).owner q = none := by
+        intro q hq
+        have hqp : (q == p) = false := by
+          apply Bool.eq_false_iff.mpr; intro he
+          have : q = p := by simpa using he
+          subst this; exact hnd.1 hq
+        rw [hf.2.2.2 q hqp]; exact hun q (List.mem_cons_of_mem _ hq)
+      have := ih (assignPartition s p) fx h1 hnd.2 hun1
+      simp only at this
+      have hk1 : Keeps s (assignPartition s p) := by
+        refine ⟨hf.1, ?_⟩
+        intro q hq
+        by_cases hqp : (q == p) = true
+        · have : q = p := by simpa using hqp
+          subst this
+          have := hun q List.mem_cons_self
+          rw [this] at hq; cases hq
+        · rw [hf.2.2.2 q (by simpa using hqp)]; exact hq
+      have hpot : ∀ c, potOf (assignPartition s p) c = potOf s c := by
+        intro c; unfold potOf; rw [hf.2.1]
+      have hcons : ∀ q, consumersOf (assignPartition s p) q = consumersOf s q := by
+        intro q; unfold consumersOf; rw [hf.2.2.1]
+      refine ⟨this.1, hk1.trans this.2.1, by rw [this.2.2.1, hf.2.1], by rw [this.2.2.2.1, hf.2.2.1], ?_⟩
+      intro q hq hne hex
+      rcases List.mem_cons.mp hq with rfl | hq
+      · exact this.2.1.2 q (assignPartition_owned s q hex)
+      · apply this.2.2.2.2 q hq
+        · rw [hcons]; exact hne
+        · obtain ⟨c, hc, hpc⟩ := hex
+          exact ⟨c, by rw [hf.1]; exact hc, by rw [hpot]; exact hpc⟩
+
+end AkVerif.StickyAlg
+
+namespace AkVerif.StickyAlg
+open AkVerif.Assign
+
+/-- setting one consumer aside: its entry moves from `cur` to the fixed list -/
+theorem setAside_own (s : St) (fx) (h : Own s fx) (c : Member) (hc : c ∈ keysOf s.cur) :
+    Own { s with subs := removeFirst s.subs c, cur := alDel s.cur c } (fx ++ [(c, curOf s c)]) := by
+  have hentry := curOf_entry s c hc
+  have hk := h.K
+  rw [keysOf_append] at hk
+  obtain ⟨hkc, hkf, hdisj⟩ := List.nodup_append.mp hk
+  have hcfx : c ∉ keysOf fx := fun hm => hdisj c hc c hm rfl
+  have sub : ∀ cp, cp ∈ alDel s.cur c ++ (fx ++ [(c, curOf s c)]) → cp ∈ s.cur ++ fx := by
+    intro cp hcp
+    rcases List.mem_append.mp hcp with hcp | hcp
+    · exact List.mem_append_left _ ((mem_alDel _ _ _).mp hcp).1
+    · rcases List.mem_append.mp hcp with hcp | hcp
+      · exact List.mem_append_right _ hcp
+      · simp at hcp; subst hcp; exact List.mem_append_left _ hentry
+  have sup : ∀ cp, cp ∈ s.cur ++ fx → cp ∈ alDel s.cur c ++ (fx ++ [(c, curOf s c)]) := by
+    intro cp hcp
+    rcases List.mem_append.mp hcp with hcp | hcp
+    · by_cases he : cp.1 = c
+      · have : cp = (c, curOf s c) := by
+          obtain ⟨a, b⟩ := cp
+          simp only at he; subst he
+          have := nodup_unique_val s.cur hkc a b (curOf s a) hcp hentry
+          rw [this]
+        rw [this]
+        exact List.mem_append_right _ (List.mem_append_right _ (List.mem_singleton.mpr rfl))
+      · exact List.mem_append_left _ ((mem_alDel _ _ _).mpr ⟨hcp, by simpa using he⟩)
+    · exact List.mem_append_right _ (List.mem_append_left _ hcp)
+  refine ⟨?_, ?_, ?_, ?_, ?_, ?_⟩
+  · show (keysOf (alDel s.cur c ++ (fx ++ [(c, curOf s c)]))).Nodup
+    rw [keysOf_append, keysOf_append, keys_alDel]
+    have hfilt : ((keysOf s.cur).filter (fun a => !(a == c))).Nodup := List.Nodup.sublist List.filter_sublist hkc
+    rw [List.nodup_append]
+    refine ⟨hfilt, ?_, ?_⟩
+    · rw [List.nodup_append]
+      refine ⟨hkf, by simp [keysOf], ?_⟩
+      intro a ha b hb; simp [keysOf] at hb; subst hb
+      intro he; subst he; exact hcfx ha
+    · intro a ha b hb
+      have ha' := List.mem_filter.mp ha
+      rcases List.mem_append.mp hb with hb | hb
+      · exact hdisj a ha'.1 b hb
+      · simp [keysOf] at hb; subst hb
+        intro he; subst he; simp at ha'
+  · intro cp hcp; exact h.N cp (sub cp hcp)
+  · intro cp hcp; exact h.HO cp (sub cp hcp)
+  · intro p c' hp
+    obtain ⟨ps, hps, hpp⟩ := h.OH p c' hp
+    exact ⟨ps, sup _ hps, hpp⟩
+  · intro c' hc'
+    show c' ∈ keysOf (alDel s.cur c)
+    obtain ⟨_, hnot, _⟩ := removeFirst_nodup s.subs c h.SN
+    have hin := mem_removeFirst _ _ _ hc'
+    rw [keys_alDel]
+    apply List.mem_filter.mpr
+    refine ⟨h.S c' hin, ?_⟩
+    have : c' ≠ c := by intro he; subst he; exact hnot hc'
+    simpa using this
+  · exact (removeFirst_nodup s.subs c h.SN).1
+
+theorem setAsideFold_own (cs : List Member) : ∀ (s : St) (fx), Own s fx → cs.Nodup →
+    (∀ c ∈ cs, c ∈ keysOf s.cur) →
+    let r := cs.foldl (fun (acc : St × List (Member × List TP)) c =>
+        if !canConsumerParticipate acc.1 c then
+          ({ acc.1 with subs := removeFirst acc.1.subs c, cur := alDel acc.1.cur c }, acc.2 ++ [(c, curOf acc.1 c)])
+        else acc) (s, fx)
+    Own r.1 r.2 ∧ r.1.owner = s.owner := by
+  induction cs with
+  | nil => intro s fx h _ _; exact ⟨h, rfl⟩
+  | cons c rest ih =>
+    intro s fx h hnd hkeys
+    rw [List.nodup_cons] at hnd
+    simp only [List.foldl_cons]
+    split
+    · have h1 := setAside_own s fx h c (hkeys c List.mem_cons_self)
+      have := ih _ _ h1 hnd.2 (by
+        intro c' hc'
+        show c' ∈ keysOf (alDel s.cur c)
+        rw [keys_alDel]
+        apply List.mem_filter.mpr
+        refine ⟨hkeys c' (List.mem_cons_of_mem _ hc'), ?_⟩
+        have : c' ≠ c := by intro he; subst he; exact hnd.1 hc'
+        simpa using this)
+      exact ⟨this.1, this.2⟩
+    · exact ih s fx h hnd.2 (fun c' hc' => hkeys c' (List.mem_cons_of_mem _ hc'))
+
+/-- adding the fixed consumers back -/
+theorem addBack_own (fx : List (Member × List TP)) : ∀ (s : St), Own s fx →
+    Own (fx.foldl (fun s cp => { s with cur := alSet s.cur cp.1 cp.2, subs := s.subs ++ [cp.1] }) s) [] ∧
+    (fx.foldl (fun s cp => { s with cur := alSet s.cur cp.1 cp.2, subs := s.subs ++ [cp.1] }) s).owner = s.owner := by
+  induction fx with
+  | nil => intro s h; exact ⟨h, rfl⟩
+  | cons cp rest ih =>
+    intro s h
+    simp only [List.foldl_cons]
+    have hk := h.K
+    rw [keysOf_append] at hk
+    obtain ⟨hkc, hkf, hdisj⟩ := List.nodup_append.mp hk
+    have hkf' : cp.1 ∉ keysOf rest ∧ (keysOf rest).Nodup := by
+      have : keysOf (cp :: rest) = cp.1 :: keysOf rest := rfl
+      rw [this, List.nodup_cons] at hkf; exact hkf
+    have hcnot : cp.1 ∉ keysOf s.cur := fun hm => hdisj cp.1 hm cp.1 (List.mem_map.mpr ⟨cp, List.mem_cons_self, rfl⟩) rfl
+    have hnohas : alHas s.cur cp.1 = false := by
+      cases hh : alHas s.cur cp.1 with
+      | false => rfl
+      | true => exact absurd ((alHas_iff_mem_keys _ _).mp hh) hcnot
+    have hcur' : alSet s.cur cp.1 cp.2 = s.cur ++ [(cp.1, cp.2)] := by unfold alSet; simp [hnohas]
+    have h1 : Own { s with cur := alSet s.cur cp.1 cp.2, subs := s.subs ++ [cp.1] } rest := by
+      have eqset : ∀ x, x ∈ (s.cur ++ [(cp.1, cp.2)]) ++ rest ↔ x ∈ s.cur ++ cp :: rest := by
+        intro x; simp [List.mem_append, List.mem_cons]
+      refine ⟨?_, ?_, ?_, ?_, ?_, ?_⟩
+      · show (keysOf (alSet s.cur cp.1 cp.2 ++ rest)).Nodup
+        rw [hcur']
+        have : keysOf ((s.cur ++ [(cp.1, cp.2)]) ++ rest) = keysOf (s.cur ++ cp :: rest) := by
+          unfold keysOf; simp
+        rw [this]; exact h.K
+      · intro x hx
+        have hx' : x ∈ alSet s.cur cp.1 cp.2 ++ rest := hx
+        rw [hcur'] at hx'
+        exact h.N x ((eqset x).mp hx')
+      · intro x hx
+        have hx' : x ∈ alSet s.cur cp.1 cp.2 ++ rest := hx
+        rw [hcur'] at hx'
+        exact h.HO x ((eqset x).mp hx')
+      · intro p c hp
+        obtain ⟨ps, hps, hpp⟩ := h.OH p c hp
+        refine ⟨ps, ?_, hpp⟩
+        show (c, ps) ∈ alSet s.cur cp.1 cp.2 ++ rest
+        rw [hcur']; exact (eqset _).mpr hps
+      · intro c hc
+        show c ∈ keysOf (alSet s.cur cp.1 cp.2)
+        rw [hcur', keysOf_append]
+        rcases List.mem_append.mp hc with hc | hc
+        · exact List.mem_append_left _ (h.S c hc)
+        · simp at hc; subst hc; exact List.mem_append_right _ (by simp [keysOf])
+      · show (s.subs ++ [cp.1]).Nodup
+        rw [List.nodup_append]
+        refine ⟨h.SN, by simp, ?_⟩
+        intro a ha b hb; simp at hb
+        intro he; rw [hb] at he; rw [he] at ha; exact hcnot (h.S _ ha)
+    have := ih _ h1
+    exact ⟨this.1, this.2⟩
+
+end AkVerif.StickyAlg
